@@ -1016,3 +1016,118 @@ def _digits_after(b):
     if o[0] == 'shift':
         return b'1' + b'0' * o[1]
     return None
+
+
+# ---------------------------------------------------------------------------------------
+GROUP_ORDINALS = {
+    # lang: (compound ordinal token, digits of the group, marker the group / the token carries)
+    'en': ('twenty-first', b'21', 'st'), 'fr': ('vingt-et-unième', b'21', 'ème'), 'de': ('einundzwanzigste', b'21', '.'),
+    'nl': ('eenentwintigste', b'21', 'e'), 'it': ('ventitreesimo', b'23', 'º'),
+}
+
+
+def rule_group_ordinal(ctx, rep, langs=ALL_LANGS):
+    R = 'A2b-GROUP-ORDINAL'
+    rep.rule(R, 'the group path of apply (hyphen groups en/fr, compound words de/nl/it), evaluated with an abstract group result, '
+                'places the group digits with one put, carries the ordinal marker over and freezes the builder')
+    from ..peval import Res as _Res
+    for lang in langs:
+        if lang not in GROUP_ORDINALS:
+            continue
+        word, digits, mk = GROUP_ORDINALS[lang]
+        ev = LexEvaluator(ctx.facts, lang)
+        ds = Builder(digits=digits, marker=Marker('Ordinal', mk))
+        ds.frozen = True
+        ev.group_result = _Res(True, ds)
+        ent = '%s|%s' % (lang, word)
+        try:
+            r, b = ev.run_apply(word)
+        except Unanalysable as e:
+            rep.anchor(R, ent, 'group path of apply left the analysable fragment: %s' % e)
+            continue
+        except Compound:
+            rep.anchor(R, ent, 'group path not taken')
+            continue
+        puts = [o for o in b.ops if o[0] in ('put', 'fput', 'push', 'shift', 'put_digit_at')]
+        problems = []
+        if not (isinstance(r, _Res) and r.ok):
+            problems.append('returns %r' % (r,))
+        if puts != [('put', digits)]:
+            problems.append('places %s, expected one put of the group digits' % puts)
+        if b.marker != Marker('Ordinal', mk):
+            problems.append('marker is %r, expected Ordinal(%r)' % (b.marker, mk))
+        if not b.frozen:
+            problems.append('builder not frozen after the ordinal group')
+        rep.check(not problems, R, ent, 'group digits placed once, marker %s kept, builder frozen' % mk,
+                  'compound ordinal "%s": %s' % (word, '; '.join(problems)), ctx.facts.loc(table(ctx, lang).body['sp']))
+        # a failing group must be propagated unchanged, with nothing placed
+        ev2 = LexEvaluator(ctx.facts, lang)
+        ev2.group_result = _Res(False, 'NaN')
+        try:
+            r2, b2 = ev2.run_apply(word)
+            rep.check(isinstance(r2, _Res) and not r2.ok and not b2.ops, R, ent + '|error', 'a rejected group places nothing and is reported',
+                      'a rejected group yields %r with operations %s' % (r2, b2.ops))
+        except (Unanalysable, Compound) as e:
+            rep.anchor(R, ent + '|error', 'error path not analysable: %s' % e)
+
+
+COMPOSE = {
+    # lang: [(first words, second-word classes that must be accepted right after, flags override)]
+    'en': [(['twenty', 'thirty', 'forty', 'fifty', 'sixty', 'seventy', 'eighty', 'ninety'], ['unit'], None),
+           (['hundred', 'thousand', 'million'], ['unit', 'teen', 'ten'], None)],
+    'fr': [(['vingt', 'trente', 'quarante', 'cinquante', 'soixante'], ['unit!un'], None),
+           (['cent', 'mille', 'million'], ['unit', 'vig_teen', 'vig_vingt', 'ten'], None)],
+    'es': [(['treinta', 'cuarenta', 'cincuenta', 'sesenta', 'setenta', 'ochenta', 'noventa'], ['unit'], None),
+           (['ciento', 'doscientos', 'mil'], ['unit', 'teen', 'ten', 'ten_unit'], None)],
+    'pt': [(['vinte', 'trinta', 'quarenta', 'cinquenta', 'sessenta', 'setenta', 'oitenta', 'noventa'], ['unit'], 1),
+           (['cento', 'duzentos', 'mil'], ['unit', 'teen', 'ten'], 1)],
+    'it': [(['cento', 'mille'], ['unit', 'teen', 'ten', 'ten_unit'], None)],
+    'de': [(['hundert', 'tausend'], ['unit', 'teen', 'ten'], None)],
+    'nl': [(['honderd', 'duizend'], ['unit', 'teen', 'ten'], None)],
+}
+
+
+def rule_compose_contexts(ctx, rep, langs=ALL_LANGS):
+    R = 'A1c-COMPOSE-CONTEXTS'
+    rep.rule(R, 'a smaller number word right after a tens / hundred / thousand word (builder state = what that word leaves on a fresh '
+                'builder) is accepted with its own instruction: the guards are not stricter than the grammar')
+    n = 0
+    for lang in langs:
+        lx = lexicon(lang)
+        ev = evaluator(ctx, lang)
+        cards = [c for c in lx['cardinals'] if c['tier'] == 'core']
+        for firsts, classes, flags_override in COMPOSE.get(lang, []):
+            for f1 in firsts:
+                try:
+                    r1, b1 = ev.run_apply(f1)
+                except (Compound, Unanalysable) as e:
+                    rep.anchor(R, '%s|%s' % (lang, f1), 'cannot evaluate apply("%s"): %s' % (f1, e))
+                    continue
+                digits = _digits_after(b1)
+                if not (isinstance(r1, Res) and r1.ok) or digits is None:
+                    rep.anchor(R, '%s|%s' % (lang, f1), '"%s" is not accepted on a fresh builder (%r)' % (f1, r1))
+                    continue
+                flags = b1.flags if flags_override is None else flags_override
+                for cspec in classes:
+                    cls, _, excl = cspec.partition('!')
+                    for c in cards:
+                        if c['class'] != cls or c['w'] == excl:
+                            continue
+                        if len(str(c['v'])) > len(digits) or (len(str(c['v'])) == len(digits) and cls != 'unit' and not digits.endswith(b'0' * len(str(c['v'])))):
+                            continue
+                        if not digits.endswith(b'0' * len(str(c['v']))):
+                            continue
+                        n += 1
+                        ent = '%s|%s %s' % (lang, f1, c['w'])
+                        try:
+                            r2, b2 = ev.run_apply(c['w'], Builder(digits=digits, flags=flags))
+                        except (Compound, Unanalysable) as e:
+                            rep.anchor(R, ent, 'cannot evaluate apply("%s"): %s' % (c['w'], e))
+                            continue
+                        ops = [o for o in b2.ops if o[0] != 'freeze']
+                        want_op = sorted(expected_ops(lang, 'unit' if cls.startswith('vig') and False else cls, c['v']))
+                        ok = isinstance(r2, Res) and r2.ok and len(ops) == 1 and ops[0][0] in ('put', 'put_digit_at')
+                        rep.check(ok, R, ent, '"%s" after "%s" is accepted' % (c['w'], f1),
+                                  '"%s" right after "%s" (builder %s) is %r with %s: the standard spelling of %s+%d is rejected' % (
+                                      c['w'], f1, digits.decode(), r2, ops, digits.decode(), c['v']))
+    rep.floor(R, n, 500, 'composition contexts evaluated')
